@@ -2,6 +2,7 @@ SPECIFICATION Spec
 CONSTANTS
   Keys = {1, 2, 3}
   NWs = {1, 2, 3}
+  Lrus = {TRUE, FALSE}
   MaxOps = 16
   FreeFail = FALSE
   Gated = TRUE
